@@ -55,12 +55,22 @@ def defn_pool(rng, n_good=10, n_bad=8):
             if not oracle.wf(g, strict):
                 continue
             d = Defn(did, "read", g, None, strict)
-        elif r < 0.8 and desc.printable(g0):
+        elif r < 0.7 and desc.printable(g0):
             text, den = desc.print_desc(rng, g0)
             text = text[:rng.randrange(1, len(text))] + rng.choice([":", "'", "|:", "#(", "/*", "\x01"])
             if desc.read_desc(text)[0] != "invalid":
                 continue
             d = Defn(did, "desc", None, text, 1)
+        elif r < 0.85:
+            # a description which is read without syntax error but defines a defective grammar: the failure
+            # happens while the description reader hands terminals and rules over
+            g = c10.inject(rng, g0, rng.choice(["rep_code", "index_big", "index_eq_len", "rep_index", "term_lhs",
+                                                "two_step_loop", "unproductive", "unreachable", "neg_cost"]))
+            strict = rng.randrange(2)
+            if not desc.printable(g) or not oracle.wf(g, strict):
+                continue
+            text, den = desc.print_desc(rng, g)
+            d = Defn(did, "desc", den, text, strict)
         else:
             g = c10.inject(rng, g0, rng.choice(["unproductive", "unreachable", "self_loop", "two_step_loop"]))
             if not oracle.wf(g, 1):
